@@ -31,7 +31,7 @@ WARM_REGIME = False
 
 import numpy as np
 
-from barril.units import Array, FixedArray, FractionScalar, Scalar
+from barril.units import Array, FixedArray, FractionScalar, ObtainQuantity, Scalar
 from barril.units.exceptions import QuantityValidationError
 from barril.basic.fraction import FractionValue
 from barril.units.scalar_validation.scalar_min_max_validator import ScalarMinMaxValidator
@@ -542,7 +542,78 @@ def _long_task(task):
     return part
 
 
+def _rereg_task(task):
+    """Histories around a RE-registration: the units' own default category (named like the quantity type) starts
+    without limits, objects are looked up (without a category / with it / not at all), then the application registers
+    the category again with limits (override=True): every object built afterwards - with or without the category
+    spelled out, of units seen before or not - is judged by the new limits.  And the other way: limits first, then
+    re-registered without."""
+    qt, kind = task
+    part = Part()
+    units = TYPES[qt][0]
+    du = units[0]
+    _n, l, h, lx, hx = kind
+    for first in ("category-less lookups of half the units first", "category-less lookups first", "explicit-category lookups first", "nothing first"):
+        for direction in ("limits added", "limits removed"):
+            db = worlds.mini("base")
+            with worlds.installed(db):
+                model = Model(db)
+                _u, lo_b, hi_b = TYPES[qt]
+                lo_du, hi_du = db.Convert(qt, du, du, lo_b), db.Convert(qt, du, du, hi_b)
+                lo, hi = (lo_du if l else None), (hi_du if h else None)
+                with_limits = dict(default_unit=du, default_value=db.Convert(qt, du, du, (lo_b + hi_b) / 2), min_value=lo, max_value=hi, is_min_exclusive=lx, is_max_exclusive=hx)
+                if direction == "limits removed":
+                    db.AddCategory(qt, qt, override=True, **with_limits)
+                seen = units if "half" not in first else units[::2]
+                for u in seen:
+                    try:
+                        if first.startswith("category-less"):
+                            Scalar(1.0, u).IsValid(), Array([1.0, 2.0], u).IsValid(), ObtainQuantity(u), FractionScalar(1.0, u).IsValid()
+                        elif first.startswith("explicit"):
+                            Scalar(1.0, u, qt).IsValid(), Array([1.0, 2.0], u, qt).IsValid(), ObtainQuantity(u, qt)
+                    except Exception as e:
+                        raise HarnessError("warm-up lookup failed: %r" % (e,))
+                if direction == "limits added":
+                    db.AddCategory(qt, qt, override=True, **with_limits)
+                    elo, ehi, elx, ehx = lo, hi, lx, hx
+                else:
+                    db.AddCategory(qt, qt, override=True, default_unit=du)
+                    elo, ehi, elx, ehx = None, None, False, False
+                has_limits = elo is not None or ehi is not None
+                for u in units:
+                    for n, x in probes(db, model, qt, u, du, lo_du, hi_du):
+                        if x != x or n.startswith("exactly"):
+                            continue
+                        a = db.Convert(qt, u, du, x)
+                        truth = satisfies(a, elo, ehi, elx, ehx) if has_limits else True
+                        for fname, mk in (("Scalar(x, u)", lambda: Scalar(x, u)), ("Scalar(x, u, category)", lambda: Scalar(x, u, qt)), ("Array([x], u)", lambda: Array([x], u)), ("Array([x], u, category)", lambda: Array([x], u, qt)),
+                                          ("FractionScalar(x, u)", lambda: FractionScalar(x, u)), ("Scalar(ObtainQuantity(u), x)", lambda: Scalar(ObtainQuantity(u), x))):
+                            sig = "C12:re-registration (%s):%s:%s:%s; then %s %s in %s" % (direction, qt, kind[0], first, fname, n, u)
+                            snippet = _rereg_snip(qt, du, with_limits, direction, first, seen, fname, x, u, truth)
+                            try:
+                                obj = mk()
+                            except Exception as e:
+                                part.violation(sig + ":construction raised", {"error": repr(e)}, snippet)
+                                continue
+                            _validate_object(part, sig, snippet, obj, truth, [a], elo, ehi, elx, ehx)
+                part.count("reregistration_histories")
+                part.add("outcomes", ("rereg", direction, first.split()[0]))
+    return part
+
+
+def _rereg_snip(qt, du, with_limits, direction, first, seen, fname, x, u, truth):
+    warm = "".join("    Scalar(1.0, %r%s).IsValid()\n" % (w, "" if first.startswith("category-less") else ", %r" % qt) for w in seen) if not first.startswith("nothing") else ""
+    a = "    db.AddCategory(%r, %r, override=True, **%r)\n" % (qt, qt, with_limits)
+    b = "    db.AddCategory(%r, %r, override=True, default_unit=%r)\n" % (qt, qt, du)
+    body = (warm + a) if direction == "limits added" else (a + warm + b)
+    expr = fname.replace("category", repr(qt)).replace("(x", "(%r" % x).replace("[x]", "[%r]" % x).replace(", x)", ", %r)" % x).replace(" u", " %r" % u).replace("(u)", "(%r)" % u)
+    return ("from mc import worlds\nfrom barril.units import *\nfrom barril.units import ObtainQuantity\ndb = worlds.mini('base')\nwith worlds.installed(db):\n" + body
+            + "    obj = %s\n    print(obj, obj.IsValid())\n    assert obj.IsValid() is %r\n" % (expr, truth))
+
+
 def _task(task):
+    if task[0] == "rereg":
+        return _rereg_task(task[1])
     if task[0] == "long":
         return _long_task(task[1])
     if task[0] == "copy":
@@ -562,6 +633,7 @@ def run(ctx):
         for kindA in LIMIT_KINDS:
             tasks.append(("copy", (qt, kindA)))
             tasks.append(("long", (qt, kindA)))
+            tasks.append(("rereg", (qt, kindA)))
     run_sharded(ctx, _task, tasks)
     c = ctx.part.counters
     if c.get("exact_boundary_probes", 0) < 20:
@@ -572,7 +644,7 @@ def run(ctx):
     ctx.rule = (
         "complete product: 2 quantity types (one affine) x every default unit x 9 limit configurations x every unit x probe alphabet (below/just below/exactly at/just inside/inside/... /NaN/+-inf) for Scalar, FractionScalar, "
         "CheckValueForCategory, validator; every sequence of length 0..%d over the alphabet for Array/FixedArray x list/tuple/ndarray; lists of tuples; registration: 9 limit kinds x default unit x 11-15 valid-unit sets x 6 default values x direct/from_category. "
-        "histories validate? ; copy ; validate over all 9 x 9 ordered pairs of limit configurations of two categories x 6 CreateCopy variants (unit / category / values changed) x arrays of length 0..2 x containers x Array/FixedArray, and Scalar/FractionScalar copies; non-trivial = exact-boundary Scalar probes + mixed arrays of length >= 2 + accepted registrations (distinct)" % maxlen
+        "histories lookups (none / category-less / with category) ; AddCategory(override=True) adding or removing the limits ; build and validate, 3 types x 9 limit kinds x 4 x 2; histories validate? ; copy ; validate over all 9 x 9 ordered pairs of limit configurations of two categories x 6 CreateCopy variants (unit / category / values changed) x arrays of length 0..2 x containers x Array/FixedArray, and Scalar/FractionScalar copies; non-trivial = exact-boundary Scalar probes + mixed arrays of length >= 2 + accepted registrations (distinct)" % maxlen
     )
     ctx.coverage_extra = {k: c.get(k, 0) for k in ("configurations", "exact_boundary_probes", "registrations_accepted", "registrations_rejected", "copy_configurations")}
     ctx.assumptions = [
